@@ -582,3 +582,32 @@ def posts_bounded(k, cap, idsel, form):
     if not same_json(delivered, exp):
         return "delivered-messages-differ-under-back-pressure"
     return "ok"
+
+
+def post_text(i, form, idsel):
+    """content corpus: the answer carries the i-th 'active' text raw: (0) JSON body, (1) SSE body, (2) SSE body with
+    CRLF line ends where the text is in a notification before the response"""
+    text = _sizes.pick_text(i)
+    rid = pick_id(idsel)
+    if rid is None:
+        return "ok"
+    resp = {"jsonrpc": "2.0", "id": rid, "result": {"t": text}}
+    note = {"jsonrpc": "2.0", "method": "notifications/message", "params": {"d": text}}
+    small = {"jsonrpc": "2.0", "id": rid, "result": {"ok": True}}
+    W.plan, W.posts = [], []
+    t = make_transport()
+    if form == 0:
+        W.plan.append(("resp", FakeResponse(200, {"Content-Type": "application/json"}, _json.dumps(resp, ensure_ascii=False).encode("utf-8"))))
+        exp = [resp]
+    elif form == 1:
+        W.plan.append(("resp", FakeResponse(200, {"Content-Type": "text/event-stream"}, ("event: message\ndata: " + _json.dumps(resp, ensure_ascii=False) + "\n\n").encode("utf-8"))))
+        exp = [resp]
+    else:
+        body = "data: " + _json.dumps(note, ensure_ascii=False) + "\r\n\r\n" + "data: " + _json.dumps(small) + "\r\n\r\n"
+        W.plan.append(("resp", FakeResponse(200, {"Content-Type": "text/event-stream; charset=utf-8"}, body.encode("utf-8"))))
+        exp = [note, small]
+    drive(t._send_message_via_http(out_message(rid, True)))
+    delivered = [dump(m) for m in t._incoming_send.items]
+    if not same_json(delivered, exp):
+        return "delivered-messages-differ-from-body:%d" % len(delivered)
+    return "ok"
